@@ -150,6 +150,13 @@ func (p *pendingRelationship) DecodeRLP(s *rlp.Stream) error {
 		return err
 	}
 	p.r = r
+	// the receiver may be a zero value
+	if p.delegatorPendingCount == nil {
+		p.delegatorPendingCount = make(map[common.Address]uint16)
+	}
+	if p.validatorPendingCount == nil {
+		p.validatorPendingCount = make(map[common.Address]uint16)
+	}
 	for _, bi := range r {
 		d, v := bi.Split()
 		p.delegatorPendingCount[d]++
